@@ -1,6 +1,8 @@
 import WD.Driver.C09
 import WD.Driver.C15
 import WD.Driver.C14
+import WD.Driver.C17
+import WD.Driver.C16
 open WD.Driver WD.Proto
 
 def handle (line : String) : String :=
@@ -9,6 +11,9 @@ def handle (line : String) : String :=
   | "submoved" :: ts => c14Line "submoved" ts
   | "subcreated" :: ts => c14Line "subcreated" ts
   | "rekey" :: ts => c14Line "rekey" ts
+  | "dq" :: ts => c17Line ts
+  | "sq" :: ts => c16Line ts
+  | "eveq" :: ts => evEqLine ts
   | "basedisp" :: ts => c15Line "basedisp" ts
   | "patdisp" :: ts => c15Line "patdisp" ts
   | "redisp" :: ts => c15Line "redisp" ts
